@@ -88,16 +88,19 @@ def walLevelNames : List String := ["minimal", "replica", "logical"]
 `walLevel` is `int(uint32)`, never negative -/
 def walLevelName (n : Nat) : String := if n < walLevelNames.length then walLevelNames.getD n "" else ""
 
-/-- inferPGVersion (with fixes/control/10: from PG_CONTROL_VERSION 1201 on the major version is read off the catalog
-version number — 1201 is PostgreSQL 12 only, 1300 is 13 through 16) -/
+/-- inferPGVersion (with fixes/control/22: `switch catalogVersion { case 202406281: return 17 … case 201909212:
+return 12 }` first — the catalog version of a released major decides, whatever the control version — then
+`switch { case controlVersion >= 1201: return 0 …}`: any other catalog version under a control version of 12 or later
+is unknown (0); older control versions are told by the control version) -/
 def inferPGVersion (controlVersion catalogVersion : Nat) : Nat :=
-  if controlVersion ≥ 1201 then
-    (if catalogVersion ≥ 202307071 then 16
-     else if catalogVersion ≥ 202209061 then 15
-     else if catalogVersion ≥ 202107181 then 14
-     else if catalogVersion ≥ 202007201 then 13
-     else 12)
-  else if controlVersion ≥ 1100 then (if catalogVersion ≥ 201909212 then 12 else 11)
+  if catalogVersion = 202406281 then 17
+  else if catalogVersion = 202307071 then 16
+  else if catalogVersion = 202209061 then 15
+  else if catalogVersion = 202107181 then 14
+  else if catalogVersion = 202007201 then 13
+  else if catalogVersion = 201909212 then 12
+  else if controlVersion ≥ 1201 then 0
+  else if controlVersion ≥ 1100 then 11
   else if controlVersion ≥ 1002 then 10
   else if controlVersion ≥ 960 then 9
   else 9
@@ -225,7 +228,8 @@ def parseControlFile (data : Bytes) : M (Option ControlFile) := do
       walSegmentSize, nameDataLen, indexMaxKeys, toastMaxChunk, largeObjectChunk, floatFormatOK,
       dataChecksumsEnabled, crc, crcValid, pgVersionMajor }
 
-/-- ReadControlFile: `os.ReadFile(dataDir/global/pg_control)` as a file-system parameter; a read error
+/-- ReadControlFile: `readRegularFile(dataDir/global/pg_control)` (fixes/entry/02: os.Stat + IsRegular + os.ReadFile — on a
+regular file the content os.ReadFile returns, on anything else an error like a missing file) as a file-system parameter; a read error
 and a parse error are both the error return -/
 def readControlFile (fs : String → Option Bytes) (dataDir : String) : M (Option ControlFile) :=
   match fs (dataDir ++ "/global/pg_control") with
